@@ -91,7 +91,7 @@ def gen_event_opts(rng: random.Random, kinds: list[str]) -> dict[str, str]:
     for k in kinds:
         ts = 100
         if rng.random() < 0.5:
-            ts = rng.choice([1, 10, 100, 1000, 90000])
+            ts = rng.choice([1, 10, 100, 1000, 90000, 48000, 7, 1_000_000, 44100])
             q[f"{k}__timescale"] = str(ts)
         if rng.random() < 0.6:
             secs = rng.choice([0.1, 0.25, 0.4, 1, 1.5, 4, 7, 10, 40])
